@@ -193,6 +193,10 @@ def check_run(ctx, c):
             if not (np.array_equal(rec['x'], prev['x']) and np.array_equal(rec['y'], prev['y'])):
                 d = float(np.max(np.abs(rec['x'] - prev['x']))) if len(rec['x']) == len(prev['x']) else -1
                 ctx.fail('rejected_step_changed_state', dict(run=brief, t=rec['t'], max_dx=d), sig=sig0)
+            if len(rec['f']) == len(prev['f']) and not np.array_equal(rec['f'], prev['f']):
+                # the derivative the next attempt starts from (the f0 of the rule) must be the one of the last accepted point
+                d = float(np.max(np.abs(rec['f'] - prev['f'])))
+                ctx.fail('rejected_step_changed_state', dict(run=brief, t=rec['t'], max_df=d, what='dae.f'), sig=dict(sig0, what='f'))
             want_t = prev['t'] - prev['h'] + rec['h']
             if abs(rec['t'] - want_t) > 1e-12:
                 ctx.fail('rejected_step_time_not_rewound', dict(run=brief, t=rec['t'], expected=want_t), sig=sig0)
